@@ -10,7 +10,7 @@ RULE = ("generated task DAGs (structured shared-dependency families in both list
 
 def main(tier, n=None):
     plan = [("cache", 1100, 50000, None, 8), ("deps", 300, 10000, None, 8), ("wide", 100, 5000, None, 8)]
-    rep, code = S.run(PROP, tier, "exploration", RULE, plan, ["c02_spawn_checks", "c02_progress_checks", "c02_row_checks"], n)
+    rep, code = S.run(PROP, tier, "exploration", RULE, plan, ["c02_spawn_checks", "c02_progress_checks", "c02_row_checks", "e1_runs"], n, e1=("cache", 60, 1500, 7))
     return code
 
 
